@@ -562,6 +562,10 @@ type Structural struct {
 type Specs struct {
 	Structurals []*Structural
 	Contracts  map[string]*Contract
+	// Implicit: safety-only contracts synthesised for module functions WITHOUT a contract that a function under a
+	// `safety` contract calls (transitively): a helper called from a decoder must not panic either. They are used only
+	// to verify the helper's own body; call sites treat the helper as before (inlined or havocked).
+	Implicit map[string]*Contract
 	Funcs      map[string]*SpecFunc // by pkg.name and bare name
 	Ghosts     map[string]*GhostVar
 	Lemmas     []*Lemma
